@@ -25,6 +25,33 @@ Lemma streaming_method_not_invocable :
   forall m a b, lookup m method_table = Some (MStream a b) -> invoke_lookup m = Some 12.
 Proof. intros m a b H. unfold invoke_lookup. rewrite H. reflexivity. Qed.
 
+(* ---- SendHeader's own test of the context makes the outer tests redundant ---- *)
+
+(* with [fx_sendh_done], latching "if needed" on a finished call does nothing: the tests of the context in
+   Close (fx_hdr_on_close's "unless the client is gone") and in the server's SendMsg (fx_send_done) no
+   longer matter -- a source tree that drops them behaves the same (used by the generated order facts) *)
+Lemma sendh_done_subsumes : forall fx s,
+  fx_sendh_done fx = true -> w_done s = true -> w_sendHeaderIfNeeded fx s = s.
+Proof. intros fx s Hf Hd. unfold w_sendHeaderIfNeeded, w_SendHeader. rewrite Hf, Hd. reflexivity. Qed.
+
+Lemma send_done_subsumed : forall a b c d f s,
+  w_done s = true ->
+  w_server_send_done (mkFx a b c d true f) s = w_server_send_done (mkFx a b c true true f) s.
+Proof.
+  intros a b c d f s Hd. unfold w_server_send_done. cbn [fx_send_done].
+  destruct d; [reflexivity | apply sendh_done_subsumes; [reflexivity | exact Hd]].
+Qed.
+
+Lemma close_guard_subsumed : forall fx e s,
+  fx_sendh_done fx = true -> w_cancelled s = true ->
+  w_Close fx e s = mkW (w_header (w_sendHeaderIfNeeded fx s)) (w_sent (w_sendHeaderIfNeeded fx s))
+                       (w_trailer (w_sendHeaderIfNeeded fx s)) true e (w_ctx (w_sendHeaderIfNeeded fx s))
+                       (w_half (w_sendHeaderIfNeeded fx s)).
+Proof.
+  intros fx e s Hf Hc. unfold w_Close. rewrite Hc, andb_false_r. cbn [negb].
+  rewrite sendh_done_subsumes; [reflexivity | exact Hf | unfold w_done; rewrite Hc; apply orb_true_r].
+Qed.
+
 (* ---- wrapper = gRPC on the rendezvous fragment ---- *)
 
 Definition w_obs fx sh r l := snd (w_steps fx sh r l).
@@ -70,44 +97,46 @@ Definition pinv (s : wst) (g : gst) : Prop :=
   (g_sent g = true -> w_header s = g_chdr g) /\ w_trailer s = [].
 
 Lemma post_equal : forall sh l s g half,
-  pinv s g -> w_half s = half ->
-  wf_post sh half l = true -> post_sets_trailer l = false -> k4_post (g_sent g) l = false ->
+  pinv s g -> w_half s = half -> g_half g = half ->
+  wf_post sh half l = true -> post_sets_trailer l = false ->
   w_obs fx_now sh (mkWR s false false) l = g_steps sh g l.
 Proof.
-  intros sh l. induction l as [|st rest IH]; intros s g half Hinv Hhalf Hwf Hpt Hk4.
+  intros sh l. induction l as [|st rest IH]; intros s g half Hinv Hhalf Hghalf Hwf Hpt.
   - discriminate.
   - destruct s as [wh ws wt wc we wx whf], g as [gh gs gt gc ghf gr go].
-    unfold pinv in Hinv. cbn in Hinv. destruct Hinv as (? & Hx & ? & ? & Hh & ?). cbn in Hhalf. subst.
+    unfold pinv in Hinv. cbn in Hinv. destruct Hinv as (? & Hx & ? & ? & Hh & ?). cbn in Hhalf, Hghalf. subst.
     assert (Hgone : forall h s' t, w_gone (mkW h s' t false we wx half) = true).
     { intros. unfold w_gone, w_cancelled. cbn. destruct wx; [discriminate | reflexivity | reflexivity]. }
+    assert (Hdone : forall h s' t, w_done (mkW h s' t false we wx half) = true).
+    { intros. unfold w_done, w_cancelled. cbn. destruct wx; [discriminate | reflexivity | reflexivity]. }
     rewrite w_obs_cons, g_steps_cons.
     destruct st; try discriminate.
     + (* S2C: SendMsg on the finished call *)
-      cbn in Hwf. split_and. cbn in Hpt, Hk4.
+      cbn in Hwf. split_and. cbn in Hpt.
       cbn [w_step wr_over wr_s]. rewrite Hgone. cbn.
-      erewrite IH; [reflexivity | | reflexivity | eassumption | exact Hpt | exact Hk4].
+      erewrite IH; [reflexivity | | reflexivity | reflexivity | eassumption | exact Hpt].
       unfold pinv; cbn; repeat split; auto.
     + (* SetH *)
-      cbn in Hwf. cbn in Hpt, Hk4.
+      cbn in Hwf. cbn in Hpt.
       cbn [w_step wr_over wr_s]. rewrite Hgone.
       destruct (md_empty h) eqn:Hh0; [|destruct gs]; cbn; rewrite ?Hh0; cbn;
-        (erewrite IH; [reflexivity | | reflexivity | exact Hwf | exact Hpt | exact Hk4]);
+        (erewrite IH; [reflexivity | | reflexivity | reflexivity | exact Hwf | exact Hpt]);
         unfold pinv; cbn; repeat split; auto; discriminate.
-    + (* SendH: only with headers sent before *)
-      cbn in Hwf. cbn in Hpt, Hk4. apply orb_false_iff in Hk4. destruct Hk4 as [Hs Hk4].
-      apply negb_false_iff in Hs. subst gs.
-      cbn [w_step wr_over wr_s]. rewrite Hgone. cbn.
-      erewrite IH; [reflexivity | | reflexivity | exact Hwf | exact Hpt | exact Hk4].
+    + (* SendH: the context is looked at first, nothing is published *)
+      cbn in Hwf. cbn in Hpt.
+      cbn [w_step wr_over wr_s].
+      unfold w_SendHeader. cbn [fx_sendh_done fx_now andb]. rewrite Hdone. cbn.
+      erewrite IH; [reflexivity | | reflexivity | reflexivity | exact Hwf | exact Hpt].
       unfold pinv; cbn; repeat split; auto.
     + (* SetT: only empty metadata *)
-      cbn in Hwf. cbn in Hpt, Hk4. apply orb_false_iff in Hpt. destruct Hpt as [Ht Hpt].
+      cbn in Hwf. cbn in Hpt. apply orb_false_iff in Hpt. destruct Hpt as [Ht Hpt].
       apply negb_false_iff in Ht. destruct t; [|discriminate].
-      cbn. erewrite IH; [reflexivity | | reflexivity | exact Hwf | exact Hpt | exact Hk4].
+      cbn. erewrite IH; [reflexivity | | reflexivity | reflexivity | exact Hwf | exact Hpt].
       unfold pinv; cbn; repeat split; auto.
-    + (* RecvEOF: a RecvMsg that fails *)
-      cbn in Hwf. split_and. subst. cbn in Hpt, Hk4.
+    + (* RecvEOF: a RecvMsg that fails, with the context's error *)
+      cbn in Hwf. split_and. subst. cbn in Hpt.
       cbn [w_step wr_over wr_s]. rewrite Hgone. cbn.
-      erewrite IH; [reflexivity | | reflexivity | eassumption | exact Hpt | exact Hk4].
+      erewrite IH; [destruct wx; [discriminate | reflexivity | reflexivity] | | reflexivity | reflexivity | eassumption | exact Hpt].
       unfold pinv; cbn; repeat split; auto.
     + (* Ret *)
       cbn in Hwf. split_and. destruct rest; try discriminate.
@@ -120,10 +149,9 @@ Lemma steps_equal : forall sh l s g half sent infl,
   wf_steps sh half sent infl l = true ->
   k1_steps (negb (md_empty (g_trl g))) l = false ->
   k2_steps sh l = false ->
-  k4_steps sent l = false ->
   w_obs fx_now sh (mkWR s false false) l = g_steps sh g l.
 Proof.
-  intros sh l. induction l as [|st rest IH]; intros s g half sent infl Hinv Hwf Hk1 Hk2 Hk4.
+  intros sh l. induction l as [|st rest IH]; intros s g half sent infl Hinv Hwf Hk1 Hk2.
   - discriminate.
   - destruct s as [wh ws wt wc we wx whf], g as [gh gs gt gc ghf gr go].
     unfold inv in Hinv. cbn in Hinv.
@@ -131,56 +159,56 @@ Proof.
     rewrite w_obs_cons, g_steps_cons.
     destruct st.
     + (* C2S *)
-      cbn in Hwf. split_and. subst. cbn in Hk1, Hk2, Hk4.
-      cbn. erewrite IH; [reflexivity | | eassumption | exact Hk1 | exact Hk2 | exact Hk4].
+      cbn in Hwf. split_and. subst. cbn in Hk1, Hk2.
+      cbn. erewrite IH; [reflexivity | | eassumption | exact Hk1 | exact Hk2].
       unfold inv; cbn; repeat split; auto.
     + (* S2C *)
-      cbn in Hwf. cbn in Hk2. cbn in Hk1. cbn in Hk4.
+      cbn in Hwf. cbn in Hk2. cbn in Hk1.
       destruct (ss sh) eqn:Hss.
       * cbn. rewrite Hss. destruct sent; cbn;
-          (erewrite IH; [reflexivity | | exact Hwf | exact Hk1 | exact Hk2 | exact Hk4]);
+          (erewrite IH; [reflexivity | | exact Hwf | exact Hk1 | exact Hk2]);
           unfold inv; cbn; repeat split; auto.
       * split_and. destruct rest as [|[| | | | | | | |rt| |] [|? ?]]; try discriminate.
         destruct rt; try discriminate.
         rewrite w_obs_cons, g_steps_cons.
         destruct sh; try discriminate; destruct sent; cbn; reflexivity.
     + (* SetH *)
-      cbn in Hwf. cbn in Hk1, Hk2, Hk4.
+      cbn in Hwf. cbn in Hk1, Hk2.
       cbn. destruct (md_empty h) eqn:Hh0; [|destruct sent]; cbn;
-        (erewrite IH; [reflexivity | | exact Hwf | exact Hk1 | exact Hk2 | exact Hk4]);
+        (erewrite IH; [reflexivity | | exact Hwf | exact Hk1 | exact Hk2]);
         unfold inv; cbn; repeat split; auto.
     + (* SendH *)
-      cbn in Hwf. cbn in Hk1, Hk2, Hk4.
+      cbn in Hwf. cbn in Hk1, Hk2.
       cbn. destruct sent; cbn;
-        (erewrite IH; [reflexivity | | exact Hwf | exact Hk1 | exact Hk2 | exact Hk4]);
+        (erewrite IH; [reflexivity | | exact Hwf | exact Hk1 | exact Hk2]);
         unfold inv; cbn; repeat split; auto.
     + (* SetT *)
-      cbn in Hwf. cbn in Hk1, Hk2, Hk4.
-      cbn. erewrite IH; [reflexivity | | exact Hwf | | exact Hk2 | exact Hk4].
+      cbn in Hwf. cbn in Hk1, Hk2.
+      cbn. erewrite IH; [reflexivity | | exact Hwf | | exact Hk2].
       * unfold inv; cbn; repeat split; auto.
       * cbn. rewrite md_empty_app, negb_andb. exact Hk1.
     + (* CloseSend *)
-      cbn in Hwf. split_and. subst. cbn in Hk1, Hk2, Hk4.
-      cbn. erewrite IH; [reflexivity | | eassumption | exact Hk1 | exact Hk2 | exact Hk4].
+      cbn in Hwf. split_and. subst. cbn in Hk1, Hk2.
+      cbn. erewrite IH; [reflexivity | | eassumption | exact Hk1 | exact Hk2].
       unfold inv; cbn; repeat split; auto.
     + (* RecvEOF *)
-      cbn in Hwf. split_and. subst. cbn in Hk1, Hk2, Hk4.
-      cbn. erewrite IH; [reflexivity | | eassumption | exact Hk1 | exact Hk2 | exact Hk4].
+      cbn in Hwf. split_and. subst. cbn in Hk1, Hk2.
+      cbn. erewrite IH; [reflexivity | | eassumption | exact Hk1 | exact Hk2].
       unfold inv; cbn; repeat split; auto.
     + (* CHeader *)
-      cbn in Hwf. split_and. subst. cbn in Hk1, Hk2, Hk4.
-      cbn. erewrite IH; [reflexivity | | eassumption | exact Hk1 | exact Hk2 | exact Hk4].
+      cbn in Hwf. split_and. subst. cbn in Hk1, Hk2.
+      cbn. erewrite IH; [reflexivity | | eassumption | exact Hk1 | exact Hk2].
       unfold inv; cbn; repeat split; auto.
     + (* Ret *)
       cbn in Hwf. split_and. destruct rest; try discriminate.
       destruct sh, r, sent; cbn; reflexivity.
     + (* CtxEnd *)
-      cbn in Hwf. split_and. cbn in Hk1, Hk4.
+      cbn in Hwf. split_and. cbn in Hk1.
       apply orb_false_iff in Hk1. destruct Hk1 as [Hk1 Hpt].
       destruct gt; try discriminate.
       assert (Hpost : w_obs fx_now sh (mkWR (set_ctx (ctx_of dl) (mkW (if sent then gc else gh) sent [] false we CtxLive half)) false false) rest
                       = g_steps sh (mkG gh sent [] gc half None true) rest).
-      { eapply post_equal; [ | reflexivity | eassumption | exact Hpt | exact Hk4].
+      { eapply post_equal; [ | reflexivity | reflexivity | eassumption | exact Hpt].
         unfold pinv. destruct dl, sent; cbn; repeat split; auto; discriminate. }
       destruct dl, sh, sent; cbn in *; rewrite Hpost; reflexivity.
     + (* Cancel *)
@@ -190,12 +218,11 @@ Proof.
 Qed.
 
 Lemma known_none : forall sc, precancel sc = false -> no_known sc = true ->
-  k1_steps false (steps sc) = false /\ k2_steps (shp sc) (steps sc) = false /\ k4_steps false (steps sc) = false.
+  k1_steps false (steps sc) = false /\ k2_steps (shp sc) (steps sc) = false.
 Proof.
   intros sc Hp H. unfold no_known, known_class in H. rewrite Hp in H.
   destruct (k1_steps false (steps sc)); [discriminate|].
-  destruct (k2_steps (shp sc) (steps sc)); [discriminate|].
-  destruct (k4_steps false (steps sc)); [discriminate|]. auto.
+  destruct (k2_steps (shp sc) (steps sc)); [discriminate|]. auto.
 Qed.
 
 Theorem wrapper_equals_grpc : forall sc,
@@ -203,10 +230,10 @@ Theorem wrapper_equals_grpc : forall sc,
 Proof.
   intros [sh rq om pc l] Hwf Hnk. unfold wrap_run, wrap_exec, grpc_run, wf, precancel in *. cbn [pre shp steps req omd] in *.
   destruct pc; [ | destruct l; [destruct sh; reflexivity | discriminate] .. ].
-  - destruct (known_none (mkScn sh rq om CtxLive l) eq_refl Hnk) as [Hk1 [Hk2 Hk4]]. cbn [steps shp] in Hk1, Hk2, Hk4.
+  - destruct (known_none (mkScn sh rq om CtxLive l) eq_refl Hnk) as [Hk1 Hk2]. cbn [steps shp] in Hk1, Hk2.
     assert (Hs : forall s0, inv s0 (g_init (negb (cs sh))) (negb (cs sh)) false ->
                  snd (w_steps fx_now sh (mkWR s0 false false) l) = g_steps sh (g_init (negb (cs sh))) l).
-    { intros s0 Hi. apply (steps_equal sh l s0 _ _ _ _ Hi Hwf); [exact Hk1 | exact Hk2 | exact Hk4]. }
+    { intros s0 Hi. apply (steps_equal sh l s0 _ _ _ _ Hi Hwf); [exact Hk1 | exact Hk2]. }
     destruct sh; cbn [w_start cs is_invoke negb];
       match goal with |- context [w_steps fx_now ?sh (mkWR ?s0 false false) l] =>
         specialize (Hs s0); destruct (w_steps fx_now sh (mkWR s0 false false) l) as [r [c sv]] end;
@@ -242,6 +269,8 @@ Proof.
     assert (Hx' : forall h s' t, w_cancelled (mkW h s' t false we wx half) = true) by (intros; exact Hx).
     assert (Hgone : forall h s' t, w_gone (mkW h s' t false we wx half) = true).
     { intros. unfold w_gone. rewrite Hx'. reflexivity. }
+    assert (Hdone : forall h s' t, w_done (mkW h s' t false we wx half) = true).
+    { intros. unfold w_done. rewrite Hx'. reflexivity. }
     rewrite w_fin_cons, w_obs_cons. cbn [fst]. rewrite forallb_app.
     destruct st; try discriminate.
     + cbn in Hwf. split_and. cbn [w_step wr_over wr_s]. rewrite Hgone. cbn.
@@ -249,8 +278,9 @@ Proof.
     + cbn in Hwf. cbn [w_step wr_over wr_s]. rewrite Hgone.
       destruct (md_empty h) eqn:Hh0; [|destruct ws]; cbn; rewrite ?Hh0; cbn;
         (eapply IH; [reflexivity | apply Hx' | reflexivity | exact Hwf]).
-    + cbn in Hwf. cbn [w_step wr_over wr_s]. rewrite Hgone.
-      destruct ws; cbn; (eapply IH; [reflexivity | apply Hx' | reflexivity | exact Hwf]).
+    + cbn in Hwf. cbn [w_step wr_over wr_s].
+      unfold w_SendHeader. cbn [fx_sendh_done fx_now andb]. rewrite Hdone. cbn.
+      eapply IH; [reflexivity | apply Hx' | reflexivity | exact Hwf].
     + cbn in Hwf. cbn. eapply IH; [reflexivity | apply Hx' | reflexivity | exact Hwf].
     + cbn in Hwf. split_and. subst. cbn [w_step wr_over wr_s]. rewrite Hgone. cbn.
       eapply IH; [reflexivity | apply Hx' | reflexivity | eassumption].
@@ -477,7 +507,7 @@ Proof. intro o. destruct (unwrap_is_plain o) as [i ->]. reflexivity. Qed.
 Theorem judge_complete : forall c,
   agrees c = true -> C13_guard c = true -> C13_known c = None -> C13_ok c = true.
 Proof.
-  intros [sc tw tg | m via cw cg | m a b cw | k rw rg | ids leaf got] Ha Hg Hk; cbn in *.
+  intros [sc tw tg | m via cw cg | m a b cw | k rw rg | ids leaf got | id sc ex tg] Ha Hg Hk; cbn in *.
   - apply andb_prop in Ha. destruct Ha as [H1 H2].
     apply transcript_eqb_eq in H1, H2. subst.
     assert (Hnk : no_known sc = true) by (unfold no_known; rewrite Hk; reflexivity).
@@ -494,8 +524,11 @@ Proof.
     destruct (m =? 1); [destruct a, b; reflexivity|].
     destruct (m =? 2); [destruct a, b; reflexivity|].
     destruct (m =? 3); [destruct a, b; reflexivity|]. reflexivity.
-  - discriminate.
+  - apply andb_prop in Ha. destruct Ha as [H1 H2].
+    destruct k, rw, rg; cbn in H1, H2; try discriminate; try reflexivity.
+    apply Z.eqb_eq in H1, H2. subst. reflexivity.
   - apply Z.eqb_eq in Ha. subst got. rewrite unwrap_chain. cbn. apply Z.eqb_refl.
+  - apply transcript_eqb_eq in Ha. apply transcript_eqb_eq in Hg. subst tg. rewrite Hg. apply transcript_eqb_refl.
 Qed.
 
 Corollary judge_zero : forall c,
